@@ -121,9 +121,10 @@ class ManifestContext:
                 stream=stream.directory,
                 manifest=self.manifest.name,
                 publish=int(timing.publishTime.timestamp()))
+            # minimumUpdatePeriod is None when manifest updates are disabled
             ttl = max(
                 timing.timeShiftBufferDepth,
-                int(math.ceil(timing.minimumUpdatePeriod)))
+                int(math.ceil(timing.minimumUpdatePeriod or 0)))
             if self.cgi_params.patch:
                 patch_loc += objects.dict_to_cgi_params(self.cgi_params.patch)
             self.patch = PatchLocation(location=patch_loc, ttl=ttl)
